@@ -145,17 +145,17 @@ Uint16Supported(v) == ConvSupported(v) /\ LET w == ToNumberW(v) IN WIsNaN(w) \/ 
 \* only $$, $&, $` and $' are special, every other "$" is copied). The replacement value is a template (ToString of a
 \* non-callable) or, for the methods "replace_fn" / "replaceAll_fn", a function of (matched, position, string) that the
 \* driver supplies: it returns "<" matched "|" position "|" string ">".
-RECURSIVE Subst(_, _, _, _)
-Subst(t, matched, pre, post) ==
+RECURSIVE StrSubst(_, _, _, _)
+StrSubst(t, matched, pre, post) ==
   IF t = <<>> THEN <<>>
   ELSE IF t[1] = 36 /\ Len(t) >= 2 /\ t[2] \in {36, 38, 96, 39}
        THEN (CASE t[2] = 36 -> <<36>> [] t[2] = 38 -> matched [] t[2] = 96 -> pre [] OTHER -> post)
-            \o Subst(SubSeq(t, 3, Len(t)), matched, pre, post)
-       ELSE <<t[1]>> \o Subst(Tail(t), matched, pre, post)
+            \o StrSubst(SubSeq(t, 3, Len(t)), matched, pre, post)
+       ELSE <<t[1]>> \o StrSubst(Tail(t), matched, pre, post)
 FnReplacement(s, matched, p) == <<60>> \o matched \o <<124>> \o IntText(p) \o <<124>> \o s \o <<62>>
 ReplacementAt(s, search, p, fn, templ) ==
   IF fn THEN FnReplacement(s, search, p)
-  ELSE Subst(templ, search, Slice(s, 0, p), Slice(s, p + Len(search), Len(s)))
+  ELSE StrSubst(templ, search, Slice(s, 0, p), Slice(s, p + Len(search), Len(s)))
 ReplaceStr(s, a, fn) ==
   LET search == ToStrU(Arg(a, 1))
       templ == IF fn THEN <<>> ELSE ToStrU(Arg(a, 2))
